@@ -28,7 +28,7 @@ package keeper
 
 //@ func (k Keeper) GetStakedPower
 //@ ensures result == stakedPow(Store_restake, stakerAddr)
-//@ loop 0: invariant power == dsum(stake.Coins, allowedDenoms, #i)
+//@ loop 0: invariant power == dsum(stake.Coins, rparams(Store_restake).AllowedDenoms, #i)
 
 // Staking moves exactly the staked coins from the staker to the module account and adds exactly them to the
 // staker's record; nothing else in the store changes.
